@@ -183,7 +183,7 @@ def run_feed_impl(chunks):
                 state["aborts"] += 1
         done.set()
     threading.Thread(target=body, daemon=True).start()
-    if not done.wait(2.0):
+    if not M.wait_event(done, 2.0):
         return "err Blocked delivered=" + str(len(cap.blocks))
     return ("ok delivered=[" + ";".join(M.show_block(b) for b in cap.blocks) + "] buf=" + hexs(bytes(p._receive_buffer._buffer))
             + f" aborts={state['aborts']}")
@@ -298,7 +298,7 @@ class Endpoint:
             self.c.on_disconnected({"source": self.c})
             done.set()
         threading.Thread(target=closer, daemon=True).start()
-        return done.wait(bound)
+        return M.wait_event(done, bound)
 
 
 SECSII_BODIES = [bytes.fromhex(x) for x in (
@@ -622,12 +622,19 @@ def real_tcp_part(res, rng, big):
     p._on_connection_message_received = lambda source, message: (at_handler.append(message), real_handler(source, message))[1]
     p.enable()
     peer = None
-    for _ in range(60):
+    end = time.monotonic() + M.bound(3.0)
+    while peer is None and time.monotonic() < end:
         try:
-            peer = socket.create_connection(("127.0.0.1", port), timeout=1)
-            break
+            peer = socket.create_connection(("127.0.0.1", port), timeout=5)
         except OSError:
             time.sleep(0.05)
+    consumed = [0]
+    real_append = p._receive_buffer.append
+
+    def counting_append(d):
+        consumed[0] += len(d)
+        return real_append(d)
+    p._receive_buffer.append = counting_append
     if peer is None:
         res.violate("tcp-listen", "passive endpoint does not accept a connection within 3 s of enable()", {"kind": "real-tcp"})
         return
@@ -665,8 +672,11 @@ def real_tcp_part(res, rng, big):
     for frames, segments, label in plans:
         before = len(at_handler)
         for seg in segments:
+            target = consumed[0] + len(seg)
             peer.sendall(seg)
-            time.sleep(0.03)
+            # each write is to be one readable chunk: go on when the endpoint has taken it (or, if it does not, after a moment — then the
+            # delivery check below says what is missing)
+            M.wait_until(lambda: consumed[0] >= target, 0.5, must=False)
             drain()
         ok = M.wait_until(lambda: len(at_handler) >= before + len(frames), 3.0)
         want = [(list(map(int, v)), b) for v, b, _ in frames]
@@ -681,7 +691,7 @@ def real_tcp_part(res, rng, big):
     peer.close()
     done = __import__("threading").Event()
     __import__("threading").Thread(target=lambda: (p.disable(), done.set()), daemon=True).start()
-    done.wait(5)
+    M.wait_event(done, 5)
 
 
 def replay_cases(res, violations):
